@@ -598,6 +598,54 @@ func c07(c *Ctx) {
 		writeBackAll(c, r, nil)
 	})
 
+	c.Rule("C07.R8", "series enter a MetricMap only through merging inserts: every direct store of a Counter/Gauge/Timer/Set into a per-name map is in a merge site, in a place where the key is unique by construction (Split, the aggregator's write-back, the wire decoder), or goes through Merge<T>", 10, func(r *Rule) {
+		mergeFns := map[*ssa.Function]bool{}
+		for _, s := range sites {
+			mergeFns[s.Fn] = true
+		}
+		allowed := func(fn *ssa.Function) (bool, string) {
+			root := fn
+			for root.Parent() != nil {
+				root = root.Parent()
+			}
+			name := FuncName(root)
+			switch {
+			case mergeFns[fn] || mergeFns[root]:
+				return true, "merge site (C07.R1-R5)"
+			case name == "(*gostatsd.MetricMap).Split" || name == "(*gostatsd.MetricMap).SplitByTags":
+				return true, "partition of a map with unique keys (C06.R2)"
+			case strings.HasPrefix(name, "(*pkg/statsd.MetricAggregator)."):
+				return true, "write-back under the visited key (C01.R3, C07.R7)"
+			case name == "pkg/web.translateFromProtobufV2":
+				return true, "decoder: one entry per key of the wire map (C14.R1)"
+			case strings.HasPrefix(name, "gostatsd.New") || strings.Contains(name, "fixtures"):
+				return true, "constructor / fixture"
+			}
+			return false, ""
+		}
+		n := 0
+		for _, fn := range w.ModuleFuncs() {
+			p := fnPkgPath(fn)
+			if strings.Contains(p, "/internal/fixtures") || strings.Contains(p, "/cmd/") || strings.Contains(p, "/pkg/backends/") {
+				continue
+			}
+			eachInstr(fn, func(in ssa.Instruction) {
+				mu, ok := in.(*ssa.MapUpdate)
+				if !ok {
+					return
+				}
+				mt, ok := mu.Map.Type().Underlying().(*types.Map)
+				if !ok || isAggType(mt.Elem()) == "" {
+					return
+				}
+				n++
+				okA, why := allowed(fn)
+				r.Check("insert:"+FuncName(fn), okA, mu.Pos(), "direct store of a "+isAggType(mt.Elem())+" into a per-name map in "+FuncName(fn)+map[bool]string{true: ": " + why, false: ": not a merging insert - a series already present under that key is overwritten (use Merge" + isAggType(mt.Elem()) + ")"}[okA])
+			})
+		}
+		r.Check("insert-sites", n >= 10, token.NoPos, fmt.Sprintf("%d direct insert sites", n))
+	})
+
 	c.Rule("C07.R6", "four-type exhaustiveness: a function traversing >= 2 of Counters/Timers/Gauges/Sets of one MetricMap traverses all four", 15, func(r *Rule) {
 		fourTypeRule(c, r, nil)
 	})
